@@ -1,5 +1,5 @@
 (* C04 — serialisation always emits the canonical well-formed form. *)
-From UL Require Import Bytes Subtags LangId Grammar LangIdSpec Canonical LangIdProofs CanonProofs.
+From UL Require Import Bytes Subtags LangId Ext Likely Inst Ops Grammar LangIdSpec LocaleInv Canonical LangIdProofs CanonProofs InvProofs TablesData OpsInvProofs.
 
 (* every LanguageIdentifier satisfying the safe-API invariant prints as canonical text: only ASCII
    letters, digits and '-'; language lower, script Title, region UPPER, variants lower, strictly sorted *)
@@ -16,6 +16,18 @@ Proof.
   intros H. injection H as <-. exists v. repeat split. apply li_to_string_canonical. exact (langid_parse_inv _ _ E).
 Qed.
 
+(* reach, Locale level: parsing any accepted locale / extension string, and every public mutation
+   (including maximize / minimize, the only routes by which table integers become subtags) *)
+Theorem C04_reach_parse_locale : forall s l, locale_from_bytes s = Ok l -> loc_inv l = true.
+Proof. exact locale_parse_inv. Qed.
+Theorem C04_reach_parse_extmap : forall s e, extmap_from_bytes s = Ok e -> ext_inv e = true.
+Proof. exact extmap_parse_inv. Qed.
+Theorem C04_reach_mutation : forall s o s' w, loc_inv s = true -> step the_tables s o = Some (s', w) -> loc_inv s' = true.
+Proof. exact (step_inv the_tables data_full_extend data_wf_ints). Qed.
+
+Print Assumptions C04_reach_parse_locale.
+Print Assumptions C04_reach_parse_extmap.
+Print Assumptions C04_reach_mutation.
 Print Assumptions C04_langid_canonical.
 Print Assumptions C04_reach_parse.
 Print Assumptions C04_canonicalize.
